@@ -18,9 +18,11 @@ type ConsistentHash struct {
 	hash         hash
 	enableWeight bool
 	replicates   int
-	mapValues    map[string]struct{}
+	mapValues    map[string]endpoint.Endpoint
 	hashRing     map[uint32]endpoint.Endpoint
 	sortedKeys   []uint32
+	// contested holds the ring points claimed by more than one endpoint
+	contested map[uint32]struct{}
 }
 
 var _ selector.Selector = (*ConsistentHash)(nil)
@@ -75,8 +77,9 @@ func New(enableWeight bool, hashType HashAlgorithmType) *ConsistentHash {
 		hash:         h,
 		enableWeight: enableWeight,
 		replicates:   selector.ConHashVirtualNodes,
-		mapValues:    make(map[string]struct{}),
+		mapValues:    make(map[string]endpoint.Endpoint),
 		hashRing:     make(map[uint32]endpoint.Endpoint),
+		contested:    make(map[uint32]struct{}),
 	}
 }
 
@@ -129,8 +132,9 @@ func (c *ConsistentHash) FindInt32(key uint32) (endpoint.Endpoint, bool) {
 func (c *ConsistentHash) Refresh(eps []endpoint.Endpoint) {
 	c.Lock()
 	defer c.Unlock()
-	c.mapValues = make(map[string]struct{}, len(eps))
+	c.mapValues = make(map[string]endpoint.Endpoint, len(eps))
 	c.hashRing = make(map[uint32]endpoint.Endpoint, len(eps))
+	c.contested = make(map[uint32]struct{})
 	c.sortedKeys = nil
 	for _, ep := range eps {
 		_ = c.addLocked(ep)
@@ -153,46 +157,78 @@ func (c *ConsistentHash) addLocked(ep endpoint.Endpoint) error {
 	if _, ok := c.mapValues[ep.HashKey()]; ok {
 		return fmt.Errorf("consistenthash: endpoint %+v already exists", ep)
 	}
+	for _, virtualKey := range c.virtualKeys(ep) {
+		c.claim(virtualKey, ep)
+	}
+	c.mapValues[ep.HashKey()] = ep
+	return nil
+}
+
+// virtualKeys returns the ring points of ep.
+func (c *ConsistentHash) virtualKeys(ep endpoint.Endpoint) []uint32 {
 	weight := c.weight(ep.Weight)
+	var keys []uint32
 	for i := 0; i < weight; i++ {
 		virtualHost := fmt.Sprintf("%s_%d", ep.HashKey(), i)
 		if c.hash.GetHashType() == KetamaHash {
 			p := md5.Sum([]byte(virtualHost))
 			for k := 0; k < 4; k++ {
 				virtualKey := uint32(p[4*k+3]&0xFF)<<24 | uint32(p[4*k+2]&0xFF)<<16 | uint32(p[4*k+1]&0xFF)<<8 | uint32(p[4*k+0]&0xFF)
-				c.hashRing[virtualKey] = ep
-				c.sortedKeys = append(c.sortedKeys, virtualKey)
+				keys = append(keys, virtualKey)
 			}
 		} else {
-			virtualKey := c.hash.Hash(virtualHost)
-			c.hashRing[virtualKey] = ep
-			c.sortedKeys = append(c.sortedKeys, virtualKey)
+			keys = append(keys, c.hash.Hash(virtualHost))
 		}
 	}
-	c.mapValues[ep.HashKey()] = struct{}{}
-	return nil
+	return keys
+}
+
+// claim puts ep on the ring point virtualKey. When two endpoints hash to the same point the one
+// with the smaller hash key owns it, whichever was added first, so that the ring is a function of
+// the endpoint set and not of the order in which it was built.
+func (c *ConsistentHash) claim(virtualKey uint32, ep endpoint.Endpoint) {
+	old, ok := c.hashRing[virtualKey]
+	if !ok {
+		c.hashRing[virtualKey] = ep
+		c.sortedKeys = append(c.sortedKeys, virtualKey)
+		return
+	}
+	if old.HashKey() == ep.HashKey() {
+		return
+	}
+	c.contested[virtualKey] = struct{}{}
+	if ep.HashKey() < old.HashKey() {
+		c.hashRing[virtualKey] = ep
+	}
 }
 
 // Remove the ep and all the virtual eps from the key
 func (c *ConsistentHash) Remove(ep endpoint.Endpoint) error {
 	c.Lock()
 	defer c.Unlock()
-	if _, ok := c.mapValues[ep.HashKey()]; !ok {
+	stored, ok := c.mapValues[ep.HashKey()]
+	if !ok {
 		return fmt.Errorf("consistenthash: endpoint %+v already removed", ep)
 	}
 	delete(c.mapValues, ep.HashKey())
-	weight := c.weight(ep.Weight)
-	for i := 0; i < weight; i++ {
-		virtualHost := fmt.Sprintf("%s_%d", ep.HashKey(), i)
-		if c.hash.GetHashType() == KetamaHash {
-			p := md5.Sum([]byte(virtualHost))
-			for k := 0; k < 4; k++ {
-				virtualKey := uint32(p[4*k+3]&0xFF)<<24 | uint32(p[4*k+2]&0xFF)<<16 | uint32(p[4*k+1]&0xFF)<<8 | uint32(p[4*k+0]&0xFF)
-				delete(c.hashRing, virtualKey)
+	shared := false
+	for _, virtualKey := range c.virtualKeys(stored) {
+		if _, ok := c.contested[virtualKey]; ok {
+			shared = true
+			break
+		}
+		delete(c.hashRing, virtualKey)
+	}
+	if shared {
+		// a point of ep is also claimed by another endpoint, which must get it (back): lay the
+		// ring out again from the remaining endpoints
+		c.hashRing = make(map[uint32]endpoint.Endpoint, len(c.hashRing))
+		c.contested = make(map[uint32]struct{})
+		c.sortedKeys = c.sortedKeys[:0]
+		for _, m := range c.mapValues {
+			for _, virtualKey := range c.virtualKeys(m) {
+				c.claim(virtualKey, m)
 			}
-		} else {
-			virtualKey := c.hash.Hash(virtualHost)
-			delete(c.hashRing, virtualKey)
 		}
 	}
 	c.reBuildHashRingLocked()
